@@ -877,15 +877,18 @@ func filterAndScoreFuzzyMatch(items []protocol.CompletionItem, query string, fuz
 
 	var result []scoredItem
 	for _, item := range items {
+		// an item matches when the whole query is a subsequence of its label; a match inside one
+		// segment only raises the score ("misc:" must not offer "expenses:misc")
+		score := fuzzyMatchScore(item.Label, query)
+		if score == 0 {
+			continue
+		}
 		if strings.Contains(item.Label, ":") {
-			if score := fuzzyMatchScoreBySegments(item.Label, queryForSegment); score > 0 {
-				result = append(result, scoredItem{item: item, score: score})
-				continue
+			if segScore := fuzzyMatchScoreBySegments(item.Label, queryForSegment); segScore > score {
+				score = segScore
 			}
 		}
-		if score := fuzzyMatchScore(item.Label, query); score > 0 {
-			result = append(result, scoredItem{item: item, score: score})
-		}
+		result = append(result, scoredItem{item: item, score: score})
 	}
 	return result
 }
